@@ -512,7 +512,7 @@ func (f *Field[T]) MulConst(a *Element[T], c *big.Int) *Element[T] {
 	}
 	switch c.Sign() {
 	case -1:
-		f.MulConst(f.Neg(a), new(big.Int).Neg(c))
+		return f.MulConst(f.Neg(a), new(big.Int).Neg(c))
 	case 0:
 		return f.Zero()
 	}
